@@ -293,8 +293,8 @@ def task_shrink(p, key, tier, seed):
 
 def programs_for(tier, seed):
     if tier == "quick":
-        return [CP.P1(), CP.P3(), CP.P8(), CP.P12(), CP.P17(), CP.P3().restrict(calibration=False)]
-    ps = CP.all_fixed() + CP.presence_variants(CP.P3())[1:] + CP.presence_variants(CP.P10())[1:]
+        return [CP.P1(), CP.P3(), CP.P8(), CP.P12(), CP.P17(), CP.P22(), CP.P3().restrict(calibration=False)]
+    ps = CP.all_fixed() + [CP.P22()] + CP.presence_variants(CP.P3())[1:] + CP.presence_variants(CP.P10())[1:]
     ps += [CP.random_program(seed, i) for i in range(10)]
     return ps
 
